@@ -200,6 +200,8 @@ let weak_acceptance (c : copy) (d : ndelta) : bool =
   nless c.c_max c.c_gc && nless d.d_gc c.c_gc && nless d.d_max c.c_gc
   && (match check_delta_status c d with Apply -> true | _ -> false)
 
+let in_idl_m (i : id) (l : id list) : bool = List.exists (fun j -> id_eqb i j) l
+
 let delta_of_message (m : message) : delta option =
   match m with SynAck (_, x) -> Some x | Ack x -> Some x | _ -> None
 
@@ -267,6 +269,34 @@ let on_proc (idx : int) (msg : message) (obs : string) : unit =
                 if not !catchup_seen then
                   check "C05" (c05_own_ok cb ca) "processing a message changed the node's own namespace"
             | _ -> ());
+           (* C14 / C04: every copy a delta talks about ends up as the admission rule (check_delta_status
+              + apply_delta, applied to the IMPLEMENTATION's copies before the message) says *)
+           (match delta_of_message msg with
+            | Some x ->
+                let dg_ids = match msg with SynAck (dg, _) -> List.map fst dg | _ -> [] in
+                let pre =
+                  List.fold_left
+                    (fun nodes nd ->
+                      match nm_get nd.d_id nodes with
+                      | Some _ -> nodes
+                      | None -> if in_idl_m nd.d_id dg_ids then nm_insert nd.d_id new_copy nodes else nodes)
+                    b.nodes x.nds
+                in
+                let t = cz_of_string (BZ.to_string !now) in
+                (match cluster_apply_nds t pre x.nds false [] with
+                 | Ok ((nodes', _), _) ->
+                     List.iter
+                       (fun nd ->
+                         match nm_get nd.d_id nodes', nm_get nd.d_id o.snap.nodes, nm_get nd.d_id b.nodes with
+                         | Some e, Some a, Some _ ->
+                             check "C14"
+                               (neq e.c_gc a.c_gc && neq e.c_max a.c_max && kvs_eqb e.c_kvs a.c_kvs)
+                               ("the copy of " ^ token_of_id nd.d_id
+                                ^ " after the message is not what the admission rule (reset / apply / reject) gives from the copy before it")
+                         | _ -> ())
+                       x.nds
+                 | _ -> ())
+            | None -> ());
            check "C20" (c20_ok info.has_cb b.nodes o.snap.nodes b.cb o.snap.cb)
              "catch-up callback count does not match the resets performed by this message";
            (* C16: a rejected SYN leaves everything but the own heartbeat untouched *)
@@ -305,8 +335,10 @@ let on_proc (idx : int) (msg : message) (obs : string) : unit =
                 List.iter
                   (fun nd -> if Hashtbl.mem tainted (idx, token_of_id nd.d_id) then Hashtbl.replace tainted_nds (nd_key nd) ())
                   x.nds;
-                check "C07" (c07_delta_ok o.snap.nodes o.snap.sched x)
-                  "reply delta is not the version-prefix of the sender's stale entries (or names a scheduled member)";
+                check "C12" (List.for_all (fun nd -> not (in_idl_m nd.d_id o.snap.sched)) x.nds)
+                  "a reply delta names a member the sender has scheduled for deletion";
+                check "C07" (c07_delta_ok o.snap.nodes [] x)
+                  "reply delta is not the version-prefix of the sender's stale entries";
                 (match msg with
                  | Syn (_, dg) | SynAck (dg, _) ->
                      check "C14" (c14_delta_ok dg o.snap.nodes x)
@@ -419,8 +451,10 @@ let on_delta ?dg (idx : int) (mtu : int) (sched : id list) (obs : string) : unit
     check "C07" (b - 4 <= mtu) (Printf.sprintf "serialized delta of %d bytes exceeds its budget %d" (b - 4) mtu);
     match Hashtbl.find_opt snaps idx, delta_of_message m with
     | Some s, Some x ->
-        check "C07" (c07_delta_ok s.nodes sched x)
-          "computed delta is not the version-prefix of the sender's stale entries (or names a scheduled member)";
+        check "C12" (List.for_all (fun nd -> not (in_idl_m nd.d_id sched)) x.nds)
+          "a computed delta names a member scheduled for deletion";
+        check "C07" (c07_delta_ok s.nodes [] x)
+          "computed delta is not the version-prefix of the sender's stale entries";
         (match dg with
          | Some dg ->
              check "C14" (c14_delta_ok dg s.nodes x)
